@@ -70,7 +70,7 @@ PROPERTY_MODULES = {
     'C29': ['contracts.c29_filewrap'],
     'C05': ['contracts.c05_indexer'],
     'C23': ['contracts.c23_doe'],
-    'C02': ['contracts.c02_adjoint'],
+    'C02': ['contracts.c02_adjoint', 'contracts.c08_scaling', 'contracts.c11_assembled'],
     'C11': ['contracts.c11_assembled'],
     'C26': ['contracts.c26_components'],
     'C32': ['contracts.c32_order'],
